@@ -60,3 +60,77 @@ pub fn has_core<P: Payload>(i: &InitState<P>) -> bool {
 pub fn salted_hash<P: Payload>(i: &InitState<P>) -> Vec<u8> {
     i.salted_node_id_hash.to_vec()
 }
+
+/// Build salt + key hash + body, sign it with the key pair of `seed`, append signature (optionally
+/// corrupted) and tail, optionally truncate, and run InitMsg::read_from on it.
+/// Returns (message bytes, signed length, signature, parse result as text).
+pub fn build_and_parse(
+    body: &[u8], seed: &[u8], trusted: &[Ed25519PublicKey], sig_ok: bool, hash_ok: bool, tail: &[u8], truncate: Option<usize>,
+) -> (Vec<u8>, usize, Vec<u8>, String) {
+    let kp = Ed25519KeyPair::from_seed_unchecked(seed).unwrap();
+    let mut pk = [0u8; ED25519_PUBLIC_KEY_LEN];
+    pk.clone_from_slice(kp.public_key().as_ref());
+    let salt = [0x11u8, 0x22, 0x33, 0x44];
+    let mut hash = InitMsg::calculate_hash(&pk, &salt);
+    if !hash_ok {
+        hash[0] ^= 1;
+    }
+    let mut msg = salt.to_vec();
+    msg.extend_from_slice(&hash);
+    msg.extend_from_slice(body);
+    let signed = msg.len();
+    let sig = kp.sign(&msg);
+    let mut sigb = sig.as_ref().to_vec();
+    let genuine = sigb.clone();
+    if !sig_ok {
+        sigb[5] ^= 0x10;
+    }
+    msg.push(sigb.len() as u8);
+    msg.extend_from_slice(&sigb);
+    msg.extend_from_slice(tail);
+    if let Some(n) = truncate {
+        msg.truncate(n);
+    }
+    let res = match InitMsg::read_from(&msg, trusted) {
+        Ok((m, _)) => {
+            let algos = |a: &Algorithms| -> String {
+                let l: Vec<String> = a
+                    .algorithm_speeds
+                    .iter()
+                    .map(|(al, s)| {
+                        let id = if *al == &AES_128_GCM { 1 } else if *al == &AES_256_GCM { 2 } else { 3 };
+                        format!("{}:{:08x}", id, s.to_bits())
+                    })
+                    .collect();
+                format!("{}|{}", if a.allow_unencrypted { "p" } else { "-" }, if l.is_empty() { "-".to_string() } else { l.join(",") })
+            };
+            let hx = |b: &[u8]| -> String {
+                if b.is_empty() {
+                    "-".to_string()
+                } else {
+                    b.iter().map(|x| format!("{:02x}", x)).collect()
+                }
+            };
+            match m {
+                InitMsg::Ping { salted_node_id_hash, ecdh_public_key, algorithms } => {
+                    format!("ok ping {} {} {}", hx(&salted_node_id_hash), hx(ecdh_public_key.bytes()), algos(&algorithms))
+                }
+                InitMsg::Pong { salted_node_id_hash, ecdh_public_key, algorithms, encrypted_payload } => format!(
+                    "ok pong {} {} {} {}",
+                    hx(&salted_node_id_hash),
+                    hx(ecdh_public_key.bytes()),
+                    algos(&algorithms),
+                    hx(encrypted_payload.message())
+                ),
+                InitMsg::Peng { salted_node_id_hash, encrypted_payload } => {
+                    format!("ok peng {} {}", hx(&salted_node_id_hash), hx(encrypted_payload.message()))
+                }
+            }
+        }
+        Err(Error::Parse(_)) => "err parse".into(),
+        Err(Error::Crypto(_)) => "err crypto".into(),
+        Err(Error::CryptoInit(_)) => "err init".into(),
+        Err(_) => "err other".into(),
+    };
+    (msg, signed, genuine, res)
+}
